@@ -28,3 +28,20 @@ def outer(a, b='ob'):
   p = make_pair(a)
   return nodes.node(x=p, y=[p, make_pair(b, 'q'), make_partial(a),
                             make_nested(b)])
+
+
+# ---- helpers called from generated C11 programs
+@auto_config.auto_config
+def helper_inline(v, w='hw'):
+  return nodes.node_b(x=v, y=w)
+
+
+@auto_config.auto_config(experimental_always_inline=False)
+def helper_noinline(v, w='hw'):
+  return nodes.Other(x=v, y=[w])
+
+
+@auto_config.auto_unconfig
+def helper_unconfig(v):
+  import fiddle as fdl  # pylint: disable=g-import-not-at-top
+  return fdl.Config(nodes.Base, x=v)
